@@ -56,6 +56,7 @@ func isErrParamNilTest(p *eng.Prog, cond ssa.Value, param ssa.Value) (isTest boo
 
 func runC19(c *eng.Ctx) {
 	p := c.P
+	lastTaskDecidedByTheDecrement(c)
 	stateMutexReleasedWhenAStageHookPanics(c)
 	responseErrorAlwaysExamined(c)
 	stagePoolsAreDistinct(c)
